@@ -216,6 +216,49 @@ def shrink(inp, still_fails, budget=400):
     return cur
 
 
+def summarise_coverage(cov, prop):
+    """what this run's inputs executed in the files the property is anchored in (properties.jsonl `anchors.files`): per function that was
+    entered at all, its executable statements and the line numbers never executed — the honest bound on what the correspondence and the
+    oracle search could see"""
+    import ast
+    anchors = []
+    try:
+        with open(os.path.join(VERIF, "properties.jsonl")) as f:
+            for line in f:
+                rec = json.loads(line)
+                if rec["id"] == prop:
+                    anchors = rec.get("anchors", {}).get("files", [])
+    except Exception:
+        pass
+    data = cov.get_data()
+    out = {"anchor_files": anchors, "functions": {}, "summary": {}}
+    tot_s = tot_m = 0
+    for fn in sorted(data.measured_files()):
+        rel = fn[fn.index("scoda"):] if "scoda" in fn else fn
+        if anchors and rel not in anchors:
+            continue
+        try:
+            _, statements, _, missing, _ = cov.analysis2(fn)
+        except Exception:
+            continue
+        st, ms = set(statements), set(missing)
+        tree = ast.parse(open(fn).read())
+        for node in ast.walk(tree):
+            if isinstance(node, (ast.FunctionDef, ast.AsyncFunctionDef)):
+                body_lines = [ln for ln in st if node.body[0].lineno <= ln <= node.end_lineno]
+                if not body_lines:
+                    continue
+                miss = sorted(ln for ln in body_lines if ln in ms)
+                if len(miss) == len(body_lines):
+                    continue                    # never entered by this property's inputs
+                out["functions"][f"{rel}:{node.name}"] = {"statements": len(body_lines), "never_executed_lines": miss[:40]}
+                tot_s += len(body_lines)
+                tot_m += len(miss)
+    out["summary"] = {"functions_entered": len(out["functions"]), "statements_in_them": tot_s, "never_executed": tot_m,
+                      "pct_executed": round(100.0 * (tot_s - tot_m) / tot_s, 1) if tot_s else None}
+    return out
+
+
 # ----------------------------------------------------------------------------- context
 
 class Ctx:
